@@ -235,7 +235,8 @@ def run(prop, tier, seed):
             shutil.rmtree(d, ignore_errors=True)
             os.makedirs(d)
             exe = vlib.build("olc_driver", ["olc_driver.cpp"], "dbg")
-            n_sig, mism = olcart.signature_conformance(exe, d)
+            # NDEBUG build: assertion-enabled builds add field reads made by assertions
+            n_sig, mism = olcart.signature_conformance(vlib.build("olc_driver", ["olc_driver.cpp"], "ndebug"), d)
             cov["olcart_model"]["signature_conformance"] = {"operations_compared": n_sig, "step_structure_mismatches": mism}
             for flag, evf in olcart.replay_killers(kill, exe, d):
                 n, rej, st, sk = validate_file(evf, prop, d)
